@@ -439,6 +439,13 @@ class NP:
 
     absolute = abs
 
+    def reciprocal(self, x, dtype=None, **kw):
+        used("np.reciprocal")
+        x = lift(x)
+        if isinstance(x, Arr) and x.dtype == "int" and not A.floaty(dtype):
+            raise ModelError("np.reciprocal of an integer array (integer division) is not modelled")
+        return ewise(lambda a: A._div(ONE, a), x, dtype="real")
+
     def square(self, x, dtype=None, **kw):
         used("np.square")
         return ewise(lambda a: P(a) * P(a), lift(x), arith="square", dtype="real" if A.floaty(dtype) else None)
